@@ -1,6 +1,8 @@
 package rules
 
 import (
+	"go/token"
+	"go/types"
 	"sort"
 	"strings"
 
@@ -57,7 +59,7 @@ func recursionRules(c *core.Ctx, r *core.Report, rule string) {
 					} else if g := core.Seam(com); g != nil {
 						add(g)
 					} else {
-						for _, g := range core.SeamAll(com) {
+						for _, g := range seamByProvenance(c, com) {
 							add(g)
 						}
 						// a function variable (`var walk func(..)` assigned a literal that calls walk): the literals
@@ -170,7 +172,7 @@ func recursionRules(c *core.Ctx, r *core.Report, rule string) {
 			r.Hold(rule, cons, c.FnPos(comp[0]), "the recursion passes through the cache accessor: a name enters creation at most once per start (C02.R3, C02.R4)")
 			continue
 		}
-		why := descendsStructure(comp, in)
+		why := descendsStructure(c, comp, in)
 		r.Check(why == "", rule, cons, c.FnPos(comp[0]), "every recursive call hands on a part of what the function was given (the depth is bounded by the finite structure it descends) "+why)
 	}
 	r.Count("recursions_in_startup_packages", count)
@@ -179,7 +181,7 @@ func recursionRules(c *core.Ctx, r *core.Report, rule string) {
 // descendsStructure: every cycle of calls among the members of the recursion contains a call in which some argument is
 // a proper part of a parameter (or captured variable) of the calling function: the calls that hand on nothing of that
 // kind do not form a cycle by themselves.  "" when that holds.
-func descendsStructure(comp []*ssa.Function, in map[*ssa.Function]bool) string {
+func descendsStructure(c *core.Ctx, comp []*ssa.Function, in map[*ssa.Function]bool) string {
 	flat := map[*ssa.Function][]*ssa.Function{} // calls that do not descend, and literals made (they may be called back)
 	where := map[[2]*ssa.Function]string{}
 	for _, f := range comp {
@@ -204,7 +206,7 @@ func descendsStructure(comp []*ssa.Function, in map[*ssa.Function]bool) string {
 				} else if g := core.Seam(com); g != nil {
 					targets = append(targets, g)
 				} else {
-					targets = append(targets, core.SeamAll(com)...)
+					targets = append(targets, seamByProvenance(c, com)...)
 					targets = append(targets, closuresInCell(com.Value, f)...)
 				}
 				okArg := false
@@ -405,6 +407,65 @@ func closuresInCell(v ssa.Value, fn *ssa.Function) []*ssa.Function {
 				out = append(out, g)
 			}
 		}
+	}
+	return out
+}
+
+// seamByProvenance: the implementations an invoke through an unexported interface can reach.  When the interface value
+// is read from a field, and everything the module ever stores into that field is a value of a concrete type boxed on
+// the spot (directly, or handed in through the parameters of unexported constructors), only those types' methods are
+// reached; otherwise every implementation is.
+func seamByProvenance(c *core.Ctx, com *ssa.CallCommon) []*ssa.Function {
+	all := core.SeamAll(com)
+	if len(all) < 2 || !com.IsInvoke() {
+		return all
+	}
+	ld, ok := core.Norm(com.Value).(*ssa.UnOp)
+	if !ok || ld.Op != token.MUL {
+		return all
+	}
+	fa, ok := ld.X.(*ssa.FieldAddr)
+	if !ok {
+		return all
+	}
+	fr, ok := core.FieldOfAddr(fa)
+	if !ok {
+		return all
+	}
+	stores, _ := c.FieldAccesses(fr.Owner, fr.Name)
+	if len(stores) == 0 {
+		return all
+	}
+	typesSeen := map[string]bool{}
+	for _, st := range stores {
+		for _, o := range originsThroughParams(c, st.Store.Val, 0) {
+			if core.IsNilConst(o) {
+				continue
+			}
+			ty := o.Type()
+			if mi, isMI := o.(*ssa.MakeInterface); isMI {
+				ty = mi.X.Type()
+			}
+			if types.IsInterface(ty) {
+				return all // an interface value of unknown content
+			}
+			n := core.NamedOf(ty)
+			if n == nil {
+				return all
+			}
+			typesSeen[n.String()] = true
+		}
+	}
+	var out []*ssa.Function
+	for _, g := range all {
+		if g.Signature.Recv() != nil {
+			if n := core.NamedOf(g.Signature.Recv().Type()); n != nil && typesSeen[n.String()] {
+				out = append(out, g)
+			}
+		}
+	}
+	if len(out) == 0 {
+		return all
 	}
 	return out
 }
